@@ -57,6 +57,11 @@ func main() {
 		return
 	}
 	caseOverride = *nOverride
+	defer func() {
+		if scratchDir != "" {
+			os.RemoveAll(scratchDir)
+		}
+	}()
 	res, err := runProp(p, *tier, *seed, *driver, *verif, *mult)
 	if err != nil {
 		fmt.Fprintln(os.Stderr, "harness:", err)
